@@ -1,5 +1,6 @@
 import Heph.Proofs.OracleTotal
 /-! The message each reported fault carries. -/
+set_option linter.unusedSimpArgs false
 namespace Heph.Oracle
 
 theorem progsLoop_lookup {v : Variant} {o : Outcome} {k : Nat} :
